@@ -516,6 +516,8 @@ def coq_trace(t):
 
 PROG_TIE_OK = True
 PROG_HEADER = "From Coq Require Import List. Import ListNotations.\nFrom Leaspy Require Import Api.ApiModel Api.ApiTie Api.RunProg Api.RunProgTie.\n"
+OBS_HEADER = ("From Coq Require Import List. Import ListNotations.\n"
+              "From Leaspy Require Import Api.ApiModel Api.ApiTie Api.RunProg Api.ObserverSrc Api.ObserverSrcTie.\n")
 TIE_HEADER = "From Coq Require Import List. Import ListNotations.\nFrom Leaspy Require Import Api.ApiModel Api.ApiInst Api.ApiTie.\n"
 
 
@@ -536,6 +538,7 @@ def trace_correspondence(run: Run, thorough: bool):
     cases, meta = [], []
     off_cache = {}
     prog_cases, prog_meta = [], []
+    obs_cases, obs_meta = [], []
 
     def program_tie(rec_out, desc):
         """the recorded run must be an execution of the program regenerated from the source (Api/RunProgTie.v check_run)"""
@@ -601,6 +604,19 @@ def trace_correspondence(run: Run, thorough: bool):
         run.case(("trace", kind, tuple(sorted(logs.items()))), nontrivial=nobs > 0)
         run.count("trace_observer_ops", kind, nobs)
         run.count("trace_algorithm_ops", kind, len(t_off))
+        # T2 of the observer operations read from the source (Api/ObserverSrcTie.v check_observer_segment): at iteration i the
+        # methods that ran are those whose periodicity divides i (C11_src_observers_guarded; a folder is configured here)
+        for j, sg in enumerate(segs):
+            it = j + 1
+            ran = []
+            for key, codes in (("print_periodicity", [0, 1, 2]), ("save_periodicity", [3]), ("plot_patient_periodicity", [4]),
+                               ("plot_periodicity", [5])):
+                per = logs.get(key)
+                if per and it % per == 0:
+                    ran += codes
+            obs_cases.append(f"({coq_list([str(c) for c in ran])}, {coq_trace(sg)})")
+            obs_meta.append(dict(desc, iteration=it, methods=ran, ops=sg[:40]))
+            run.count("observer_segment_methods", ",".join(map(str, ran)) or "none", 1)
         cases.append(f"({coq_list([coq_trace(s) for s in segs])}, {coq_trace(t_on)}, {coq_trace(t_off)})")
         meta.append(dict(desc, segs=segs, t_on=t_on, t_off=t_off))
         if on["digest"] != off["digest"] or on["rng"] != off["rng"]:
@@ -615,6 +631,15 @@ def trace_correspondence(run: Run, thorough: bool):
                      {k: m[k] for k in ("kind", "n_iter", "seed", "logs")}, observed=why[1])
         run.sample(dict(kind="trace", config=meta[0]["logs"], model=meta[0]["kind"], observer_calls=len(meta[0]["segs"]),
                         first_observer_ops=meta[0]["segs"][0][:12], algorithm_ops=len(meta[0]["t_off"])))
+    if obs_cases and PROG_TIE_OK:
+        bad = run.vm_bad_indices("observer_ops", OBS_HEADER, "list nat * list rop", obs_cases, "check_observer_segment")
+        for i in bad or []:
+            m = obs_meta[i]
+            run.broken("trace:observers:not-the-operations-read-from-the-source",
+                       "an output-manager call recorded in a real fit performs a State / generator operation that is not of the kind of any "
+                       "operation read from the source for the methods that ran (coq/gen/GenC11Obs.v): "
+                       f"{json.dumps(m, default=str)[:600]}", kind="broken-correspondence")
+        run.extra["c11_observer_segments_checked"] = len(obs_cases)
     if prog_cases and PROG_TIE_OK:
         bad = run.vm_bad_indices("program", PROG_HEADER, "run_case", prog_cases, "check_run")
         for i in bad or []:
@@ -1078,7 +1103,15 @@ def build_tie(run: Run):
                    "coq/gen/GenC11.v, the control flow regenerated from the source: a failure there means the fit no longer has the shape of "
                    "`fit_run` (an algorithm event or a test of the logging configuration where only the other side may stand, an observer call "
                    "outside `if self.output_manager is not None` or outside its periodicity test).\n" + (m.group(0) if m else out[-1500:]))
-    return ok2
+    ok3, out = make(["theories/Api/ObserverSrcTie.vo"], jobs=8)
+    if not ok3:
+        import re
+        m = re.search(r'File "([^"]+)", line (\d+)[^\n]*\n(?:.*\n){0,8}', out)
+        run.broken("build:ObserverSrcTie",
+                   "Api/ObserverSrcTie.v does not build.  `gen_ops_allowed` is decided by vm_compute on coq/gen/GenC11Obs.v, the operations of "
+                   "the output manager's methods read from the source: a failure there means a method performs an operation that is not a "
+                   "read / own-register write / clone.\n" + (m.group(0) if m else out[-1500:]))
+    return ok2 and ok3
 
 
 def main(run: Run):
